@@ -9,7 +9,7 @@ import (
 )
 
 func init() {
-	register("C10", 30, "Decided (for every path of the current source): (R1) the buffer wait has a stop arm and stopBuffer is a non-blocking send on a buffered channel; (R2) the stop entry point latches once (first stop wins), records the flavour and wakes the reader on every path that latches; (R3) every function that emits DATA/SUCC payload or starts a read checks stop first and returns its error, every failed buffer read is translated through the stop check, the pause loop re-checks stop each iteration; (R4) RemoveAll only iterates the created-files list, which is appended only right after a successful OpenFile/MkdirAll-when-absent of that same path, and the deleting function is called only on the stop-and-delete edge (client) / the peer-said-stopped-and-deleted edge (server); (R5) the message compared on the server is the message of the error the stopping side sends; (R6) the flavour is published before (or atomically with) the latch, only by the call that latches. Success-for-incomplete-file is excluded by C02's gates (shared). Not decided: promptness in wall-clock time, every stop point x schedule, the peer's reaction.",
+	register("C10", 30, "Decided (for every path of the current source): (R1) the buffer wait has a stop arm and stopBuffer is a non-blocking send on a buffered channel; (R2) the stop entry point latches once (first stop wins), records the flavour and wakes the reader on every path that latches; (R3) every function that emits DATA/SUCC payload or starts a read checks stop first and returns its error, every failed buffer read is translated through the stop check, the pause loop re-checks stop each iteration; (R4) RemoveAll only iterates the created-files list, which is appended only right after a successful OpenFile/MkdirAll-when-absent of that same path, and the deleting function is called only on the stop-and-delete edge (client) / the peer-said-stopped-and-deleted edge (server); (R5) the message compared on the server is the message of the error the stopping side sends; (R6) the flavour is published before (or atomically with) the latch, only by the call that latches. Success-for-incomplete-file is excluded by C02's gates (shared). Not decided: promptness in wall-clock time, every stop point x schedule, the peer's reaction. (R8) SIGINT/SIGTERM on the servers reach the stop entry point of the transfer they run; (R9) Ctrl-C reaches the stop question (pause first) and its answers map to continue / stop-keep / stop-delete; deleted paths are reported only when removed.",
 		func(c *Ctx) {
 			c.run("C10-R1", "SELECT-ARM: stop wakes the blocked reader", c10R1)
 			c.run("C10-R2", "MUST-PASS: the stop entry point latches, records the flavour and wakes the reader", c10R2)
